@@ -299,10 +299,40 @@ def run_client_iteration(case):
   task = courier_utils.GeneratorTask.new(lf.trace(targets.gen_failing_with)(g['n'], g['fail_at'], g['exc'], g['msg'], g['ret'], 'T'))
   rq = queue.SimpleQueue()
   got, box = [], {}
+  n2 = case.get('second')          # a second generator of n2 elements is iterated on the same worker afterwards
+  got2, box2 = [], {}
+
+  # Network model for the second run: a request for the next batch that reaches the server after the terminal marker of the
+  # current generator went out is stale (nobody waits for its answer); it is delayed in the network and arrives only when
+  # the next generator is being served.
+  courier.LOG_REPLIES = True
+
+  def stale_or_legit(address, method):
+    if address != name or method != 'next_batch_from_generator':
+      return None
+    for c in reversed(list(courier.CALLS)):
+      if c[0] != name:
+        continue
+      if c[1] == 'init_generator':
+        # first request for the new generator: the delayed stale requests arrive now, just ahead of it
+        if courier.release_parked(name):
+          time.sleep(0.02)
+        return None
+      if c[1] == 'next_batch_from_generator' and len(c) > 4:
+        batch = lf.pickler.loads(c[4])
+        return 'park' if batch and isinstance(batch[-1], Exception) else None
+    return None
+  if n2 is not None:
+    courier.INTERCEPT = stale_or_legit
 
   async def drive():
     async for x in client.async_iterate(task, generator_result_queue=rq):
       got.append(list(x))
+
+  async def drive2():
+    task2 = courier_utils.GeneratorTask.new(lf.trace(targets.gen_failing_with)(n2, None, 'ValueError', '', 'R2', 'U'))
+    async for x in client.async_iterate(task2, generator_result_queue=queue.SimpleQueue()):
+      got2.append(list(x))
 
   def body():
     try:
@@ -310,10 +340,18 @@ def run_client_iteration(case):
       box['end'] = ('done',)
     except Exception as e:  # pylint: disable=broad-exception-caught
       box['end'] = ('exc', type(e).__name__, str(e))
+    if n2 is not None:
+      try:
+        asyncio.run(drive2())
+        box2['end'] = ('done',)
+      except Exception as e:  # pylint: disable=broad-exception-caught
+        box2['end'] = ('exc', type(e).__name__, str(e))
   th = threading.Thread(target=body, daemon=True)
   th.start()
-  th.join(10)
+  th.join(15)
   hung = th.is_alive()
+  courier.INTERCEPT = None
+  courier.release_parked(name)
   server._request_shutdown()  # pylint: disable=protected-access
   check(not hung, 'client-keeps-polling-a-finished-generator',
         f'{what}: the client was still asking for batches after 10 s; delivered so far {got}')
@@ -329,8 +367,13 @@ def run_client_iteration(case):
     while not rq.empty():
       rets.append(rq.get())
     check(rets == [g['ret']], 'return-value-not-delivered-once', f'{what}: result queue holds {rets!r}, want [{g["ret"]!r}]')
-  return {'nontrivial': fails or (case['batch_size'] and g['n'] % case['batch_size'] != 0),
-          'classes': ['client-iteration'] + (['generator-fails', f'exc-{g["exc"]}'] if fails else [])}
+  if n2 is not None:
+    check(box2.get('end') == ('done',) and got2 == [['U', i] for i in range(n2)], 'second-generator-on-the-same-worker-differs',
+          f'{what}: a second generator of {n2} elements iterated afterwards on the same worker yielded {got2} and ended with '
+          f'{box2.get("end")!r} (a request left over from the first iteration must not consume its elements)')
+  return {'nontrivial': fails or (case['batch_size'] and g['n'] % case['batch_size'] != 0) or n2 is not None,
+          'classes': ['client-iteration'] + (['generator-fails', f'exc-{g["exc"]}'] if fails else []) + (
+              ['second-generator'] if n2 is not None else [])}
 
 
 def strat_client_iteration(tier):
@@ -341,7 +384,10 @@ def strat_client_iteration(tier):
     # messages incl. the interpreter's own wording for a re-entered generator, which the client loop compares against
     g = {'n': n, 'fail_at': fail_at, 'exc': draw(st.sampled_from(['ValueError', 'KeyError', 'RuntimeError', 'TypeError'])),
          'msg': draw(st.sampled_from(['boom', 'generator already executing', 'x y', ''])), 'ret': draw(st.sampled_from(['R', 7, None]))}
-    return {'gen': g, 'batch_size': draw(st.integers(1, 4)), 'prefetch_size': draw(st.integers(1, 3))}
+    case = {'gen': g, 'batch_size': draw(st.integers(1, 4)), 'prefetch_size': draw(st.integers(1, 3))}
+    if draw(st.booleans()):
+      case['second'] = draw(st.integers(1, 6))
+    return case
   return s()
 
 
